@@ -469,6 +469,37 @@ func init() {
 		},
 	})
 	eng.Register(&eng.Scenario{
+		Name: "pcontainer-setresult-order", Props: []string{"C11"}, ObsNames: stdObs,
+		Doc:   "PromiseContainer: thread P does SetResult(31); Await; SetResult(32); Await while thread Q takes the container's lock (GetPromise x3) at any moment: SetResult has taken effect when it returns true, so each Await by P returns the result P set last",
+		Quick: eng.Bounds{PB: 3}, Thorough: eng.Bounds{PB: 5},
+		Body: func() {
+			bg := context.Background()
+			c := promise.NewPromiseContainer[int]()
+			kind := vsched.Choose(3)
+			T("P", func() {
+				for _, want := range []int{31, 32} {
+					if !c.SetResult(want, nil) {
+						fail("C11.container-setresult", "PromiseContainer.SetResult returned false")
+					}
+					v, err := doAwait(c, kind, bg, nil, nil)
+					vsched.Observe(oRet, int64(want), int64(v), errCode(err))
+					if v != want || err != nil {
+						fail("C11.wrong-result", "container %s after SetResult(%d,nil) had returned true returned (%d,%v)", aLabels[kind], want, v, err)
+					}
+				}
+			})
+			T("Q", func() {
+				for i := 0; i < 3; i++ {
+					c.GetPromise()
+				}
+			})
+			vsched.Settle()
+			if n := vsched.CountParked(aLabels[kind]); n > 0 {
+				fail("C11.awaiter-stuck", "container awaiter parked although SetResult had returned true before the await began")
+			}
+		},
+	})
+	eng.Register(&eng.Scenario{
 		Name: "promise-set3", Props: []string{"C11"}, MustFinish: true, ObsNames: stdObs,
 		Doc:   "Promise: 3 concurrent SetResult calls (each result chosen from {(v,nil),(v,E),(v,Canceled),(v,DeadlineExceeded)}) and 2 plain awaiters; exactly one winner, awaiters see the winner's pair",
 		Quick: eng.Bounds{PB: 2}, Thorough: eng.Bounds{PB: 4},
